@@ -109,7 +109,9 @@ func IsCodeField(message proto.Message) bool {
 	if field != nil {
 		allowedKinds := []protoreflect.Kind{protoreflect.EnumKind, protoreflect.StringKind}
 		isValidFieldType := slices.Includes(allowedKinds, field.Kind())
-		return strings.HasSuffix(name, "Code") && isValidFieldType
+		// A bound code element that is itself named "code" is generated as
+		// "<Parent>.CodeType" (OperationOutcome.issue.code, DocumentReference.relatesTo.code).
+		return (strings.HasSuffix(name, "Code") || name == "CodeType") && isValidFieldType
 	}
 	return false
 }
